@@ -71,7 +71,7 @@ CLAIMED["C10"] = dict(
     technique="Coq proof (topic injectivity, frame lemmas, tick-level relation, stuttering simulation over whole runs) + paired whole-simulation runs compared in Coq + adapter-level differential runs",
     ref="5/C10")
 CLAIMED["C11"] = dict(
-    text="Coq theorems over Model/FailStop.v for every component tree and every failing device: the stop broadcast reaches every component of every depth (C11_broadcast_reaches_subtree, C11_all_stopped); the pinned tree's behaviour (nested components not stopped) is refuted by a witness. Tied to the real code by running whole flat/nested simulations through TickitSimulation.run() where device d raises at its n-th update for every (d, n) and adapter hooks fail: which exception the master handled, which components ran stop_component, whether run() returned, whether another tick started - compared in Coq.",
+    text="Coq theorems over Model/FailStop.v for every component tree and every failing device: the stop broadcast reaches every component of every depth (C11_broadcast_reaches_subtree, C11_all_stopped); the pinned tree's behaviour (nested components not stopped) is refuted by a witness. Tied to the real code by running whole flat/nested simulations through TickitSimulation.run() where device d raises at its n-th update for every (d, n) and adapter hooks fail, on the in-memory bus and under delayed, reordered delivery (harness/cbus.py registered as a backend): which exception the master handled, which components ran stop_component, whether run() returned, whether another tick started - compared in Coq.",
     note=TB + "the virtual-time event loop. Cancellation semantics of asyncio tasks are exercised, not modelled.",
     technique="Coq proof (induction on the component tree) + exhaustive (device, update) failure sweep compared in Coq",
     ref="5/C11")
